@@ -28,6 +28,10 @@ pub struct MinDev {
     /// scripted self-test result
     pub tst: Option<ErrSpec>,
     pub rst_calls: u32,
+    /// a condition posted by "hardware" that the device samples whenever the status subsystem
+    /// asks for mutable access to the register (the only hook the library offers for that)
+    pub pending_oper: Option<u16>,
+    pub pending_ques: Option<u16>,
 }
 
 impl MinDev {
@@ -41,6 +45,8 @@ impl MinDev {
             errors: if bounded { Queue::Bounded(ArrayVec::new()) } else { Queue::Unbounded(VecDeque::new()) },
             tst: None,
             rst_calls: 0,
+            pending_oper: None,
+            pending_ques: None,
         }
     }
     pub fn queue_len(&self) -> usize {
@@ -115,6 +121,9 @@ impl GetEventRegister<Operation> for MinDev {
         &self.operation
     }
     fn register_mut(&mut self) -> &mut EventRegister {
+        if let Some(c) = self.pending_oper.take() {
+            self.operation.set_condition(c);
+        }
         &mut self.operation
     }
 }
@@ -124,6 +133,9 @@ impl GetEventRegister<Questionable> for MinDev {
         &self.questionable
     }
     fn register_mut(&mut self) -> &mut EventRegister {
+        if let Some(c) = self.pending_ques.take() {
+            self.questionable.set_condition(c);
+        }
         &mut self.questionable
     }
 }
@@ -199,3 +211,29 @@ pub const MIN_TREE: Node<'static, MinDev> = Root![
     scpi_system!(),
     Node::Branch { name: b"TEST", default: false, sub: &[Node::Leaf { name: b"FAIL", default: false, handler: &FailCommand }, Node::Leaf { name: b"U8", default: false, handler: &U8Command }] }
 ];
+
+/// The mandated common commands as a shared block, the way a family of
+/// instruments would keep them ...
+const MANDATORY: &[Node<'static, MinDev>] = &[
+    scpi_contrib::ieee488::common::ClsCommand::node(),
+    ieee488_ese!(),
+    ieee488_esr!(),
+    ieee488_idn!(b"VERIF", b"T800", b"0", b"1"),
+    ieee488_opc!(),
+    ieee488_rst!(),
+    ieee488_sre!(),
+    ieee488_stb!(),
+    ieee488_tst!(),
+    ieee488_wai!(),
+];
+
+/// ... and the same device with that block mounted as a transparent (anonymous,
+/// default) branch of the root, built with the `Node::*` constructors and the
+/// `ClsCommand::node()` helper instead of the macros. Every message means the
+/// same on both trees.
+pub const MIN_TREE_ALT: Node<'static, MinDev> = Node::root(&[
+    Node::default_branch(b"", MANDATORY),
+    scpi_status!(),
+    scpi_system!(),
+    Node::branch(b"TEST", &[Node::leaf(b"FAIL", &FailCommand), Node::leaf(b"U8", &U8Command)]),
+]);
